@@ -51,6 +51,17 @@ func TestC01Break(t *testing.T) {
 	}, func(st *stats) bool { return st.nontrivial() && st.reconnected && st.lateObserver })
 }
 
+// TestC01Resub: client.Query values (paths as strings, elements with '/', list keys as index strings or in
+// the name[key=value] syntax) that are used for more than one subscription: a ONCE before the STREAM, a
+// client.ReconnectClient whose transport to the collector is cut while the target goes on, several
+// subscriptions in a row after quiescence. Non-trivial additionally demands that the library did subscribe
+// again with the same value.
+func TestC01Resub(t *testing.T) {
+	runPart(t, "resub", func(rt *rapid.T) *Scenario {
+		return genFlowScenario(rt, flowParams{profile: "resub", maxFill: *maxFill, maxStorm: *maxStorm})
+	}, func(st *stats) bool { return st.nontrivial() && st.resubscribed })
+}
+
 func runPart(t *testing.T, part string, gen func(*rapid.T) *Scenario, nontrivial func(*stats) bool) {
 	if !vstat.Enabled("C01") {
 		t.Skip()
